@@ -95,6 +95,7 @@ class Sim:
         self.logbuf = []
         self.max_events = 2_000_000
         self.lock_waits = 0
+        self.step_depth = 0          # > 0 while events are run from inside a blocked scheduler-context call (another logical thread)
         self.app_calls_in_thread = 0
         CURRENT = self
 
@@ -263,7 +264,11 @@ class Sim:
             if self.heap[0][3] in defer:
                 stash.append(heapq.heappop(self.heap))
                 continue
-            self._step()
+            self.step_depth += 1
+            try:
+                self._step()
+            finally:
+                self.step_depth -= 1
         for (t, seq, f, tag) in stash:
             heapq.heappush(self.heap, (max(t, self.now), seq, f, tag))
         if th.exc is not None:
@@ -543,7 +548,11 @@ class SimLock:
             if cur is None:
                 if not sim.heap:
                     raise HarnessError('lock is never released')
-                sim._step()
+                sim.step_depth += 1
+                try:
+                    sim._step()
+                finally:
+                    sim.step_depth -= 1
             else:
                 self._waiters.append(cur)
                 sim._yield('lock')
